@@ -5,7 +5,7 @@ CONSTANTS
   SweepCovers = FALSE
   P = 4
   MaxNon = 3
-  Focus = FALSE
+  Focus = "none"
   MaxRef = 2
 INVARIANT Sorted
 INVARIANT Disjoint
